@@ -30,7 +30,6 @@ class Target:
 
     def __init__(self, faulty_call, exc):
         self.log = []
-        self.lock_free_counter = 0
         self.faulty_call = faulty_call
         self.exc = exc
         self.fired = False
